@@ -343,6 +343,43 @@ def boolean_algebra(fn: ast.AST) -> None:
     X().visit(fn)
 
 
+def drop_sticky_flag_tests(fn: ast.AST) -> None:
+    """``if flag and cond: flag = False``  ->  ``if cond: flag = False`` for a local flag that only ever holds True/False
+    and a condition made of names, constants and ==/!=/is comparisons of them (clearing a flag that is already False changes
+    nothing; the condition has no effect, so evaluating it once more is not observable)."""
+    args = fn.args  # type: ignore[attr-defined]
+    params = {a.arg for a in args.posonlyargs + args.args + args.kwonlyargs} | ({args.vararg.arg} if args.vararg else set()) | ({args.kwarg.arg} if args.kwarg else set())
+    stores: dict = {}
+    bad: set = set(params)
+    for n in ast.walk(fn):
+        if isinstance(n, (ast.Global, ast.Nonlocal)):
+            bad.update(n.names)
+        elif isinstance(n, ast.Name) and isinstance(n.ctx, (ast.Store, ast.Del)):
+            stores.setdefault(n.id, 0)
+            stores[n.id] += 1
+    plain: dict = {}
+    for n in ast.walk(fn):
+        if isinstance(n, ast.Assign) and len(n.targets) == 1 and isinstance(n.targets[0], ast.Name) and isinstance(n.value, ast.Constant) and n.value.value in (True, False) and isinstance(n.value.value, bool):
+            plain[n.targets[0].id] = plain.get(n.targets[0].id, 0) + 1
+    flags = {x for x, k in plain.items() if stores.get(x) == k and x not in bad}
+    if not flags:
+        return
+    simple = (ast.Name, ast.Constant, ast.Compare, ast.BoolOp, ast.UnaryOp, ast.Not, ast.And, ast.Or, ast.Load, ast.cmpop)
+    for n in ast.walk(fn):
+        if not (isinstance(n, ast.If) and not n.orelse and len(n.body) == 1 and isinstance(n.test, ast.BoolOp) and isinstance(n.test.op, ast.And)):
+            continue
+        st = n.body[0]
+        if not (isinstance(st, ast.Assign) and len(st.targets) == 1 and isinstance(st.targets[0], ast.Name) and st.targets[0].id in flags and isinstance(st.value, ast.Constant) and st.value.value is False):
+            continue
+        flag = st.targets[0].id
+        rest = [v for v in n.test.values if not (isinstance(v, ast.Name) and v.id == flag)]
+        if len(rest) == len(n.test.values) or not rest:
+            continue
+        if not all(isinstance(x, simple) and not (isinstance(x, ast.UnaryOp) and not isinstance(x.op, ast.Not)) and not (isinstance(x, ast.cmpop) and not isinstance(x, (ast.Eq, ast.NotEq, ast.Is, ast.IsNot))) for v in rest for x in ast.walk(v)):
+            continue
+        n.test = rest[0] if len(rest) == 1 else ast.BoolOp(op=ast.And(), values=rest)
+
+
 def _negate(e: ast.AST) -> ast.AST:
     return ast.UnaryOp(op=ast.Not(), operand=e)
 
@@ -1381,7 +1418,8 @@ def _pure_value(e: ast.AST) -> bool:
 
 def fold_inplace_sort(fn: ast.AST) -> None:
     """``x = [fresh list]`` ; ``x.sort(**kw)``  ->  ``x = sorted([fresh list], **kw)`` (list.sort and sorted are the same stable
-    sort; the list is fresh - a comprehension, display or ``list(..)`` call - so nobody else sees it being sorted in place)."""
+    sort; the list is fresh - a comprehension, display or ``list(..)`` call - so nobody else sees it being sorted in place);
+    likewise ``x.reverse()`` -> ``x = list(reversed([fresh list]))``."""
     for seq in list(_blocks(fn)):
         k = 0
         while k + 1 < len(seq):
@@ -1397,6 +1435,29 @@ def fold_inplace_sort(fn: ast.AST) -> None:
                 a.value = ast.Call(func=ast.Name(id='sorted', ctx=ast.Load()), args=[a.value], keywords=b.value.keywords)
                 del seq[k]
                 k -= 1
+            elif isinstance(b, ast.Expr) and isinstance(b.value, ast.Call) and isinstance(b.value.func, ast.Attribute) and b.value.func.attr == 'reverse' and isinstance(b.value.func.value, ast.Name) and b.value.func.value.id == x and not b.value.args and not b.value.keywords:
+                # x = [fresh list] ; x.reverse()  ->  x = list(reversed([fresh list]))
+                a.value = ast.Call(func=ast.Name(id='list', ctx=ast.Load()), args=[ast.Call(func=ast.Name(id='reversed', ctx=ast.Load()), args=[a.value], keywords=[])], keywords=[])
+                del seq[k]
+                k -= 1
+    collapse_conversions(fn)
+
+
+def collapse_conversions(fn: ast.AST) -> None:
+    """``tuple(list(y))`` -> ``tuple(y)`` (likewise for list/set/frozenset/sorted around list/tuple): the inner copy is consumed
+    by the outer constructor alone and both iterate ``y`` once, in order."""
+    shadowed = {n.id for n in ast.walk(fn) if isinstance(n, ast.Name) and isinstance(n.ctx, ast.Store)}
+
+    class X(ast.NodeTransformer):
+        def visit_Call(self, n):  # noqa: N802
+            self.generic_visit(n)
+            if isinstance(n.func, ast.Name) and n.func.id in ('tuple', 'list', 'set', 'frozenset', 'sorted') and n.func.id not in shadowed and len(n.args) == 1 and not isinstance(n.args[0], ast.Starred) and (not n.keywords or n.func.id == 'sorted'):
+                inner = n.args[0]
+                if isinstance(inner, ast.Call) and isinstance(inner.func, ast.Name) and inner.func.id in ('list', 'tuple') and inner.func.id not in shadowed and len(inner.args) == 1 and not inner.keywords and not isinstance(inner.args[0], ast.Starred):
+                    n.args = [inner.args[0]]
+            return n
+
+    X().visit(fn)
 
 
 def split_validating_loops(fn: ast.AST) -> None:
@@ -1691,7 +1752,7 @@ def split_arm_variables(fn: ast.AST) -> None:
 
 def drop_tail_returns(fn: ast.AST) -> None:
     """A bare ``return`` / ``return None`` in tail position of the function (the last statement, through if/else arms and
-    with blocks) is what falling off the end does."""
+    with blocks, the arms of a final try statement) is what falling off the end does."""
     def is_none_return(st: ast.stmt) -> bool:
         return isinstance(st, ast.Return) and (st.value is None or (isinstance(st.value, ast.Constant) and st.value.value is None))
 
@@ -1711,6 +1772,14 @@ def drop_tail_returns(fn: ast.AST) -> None:
                 visit(last.orelse, value_context)
         elif isinstance(last, (ast.With, ast.AsyncWith)):
             visit(last.body, value_context)
+        elif isinstance(last, ast.Try):
+            # the finally block runs either way; a return in the try body would skip an else block, one in finally swallows
+            if not last.orelse:
+                visit(last.body, value_context)
+            else:
+                visit(last.orelse, value_context)
+            for h in last.handlers:
+                visit(h.body, value_context)
 
     # only when the function never returns a value, ``return`` and ``return None`` are interchangeable with falling off
     visit(fn.body, False)
@@ -2043,6 +2112,7 @@ def normal_form(fn: ast.AST, sigs: typing.Optional[SignatureIndex] = None, owner
         strip_meta(node)
         canonical_tests(node)
         boolean_algebra(node)
+        drop_sticky_flag_tests(node)
         loops_to_comprehensions(node)
         split_chained_assignments(node)
         split_tuple_assignments(node)
@@ -2072,8 +2142,9 @@ def normal_form(fn: ast.AST, sigs: typing.Optional[SignatureIndex] = None, owner
             while inline_temporaries(sub, sigs=sigs) and guard < 100:
                 guard += 1
         canonical_tests(node)
-        if not any(isinstance(x, ast.Return) and x.value is not None and not (isinstance(x.value, ast.Constant) and x.value.value is None) for x in _own_nodes(node)):
-            drop_tail_returns(node)
+        for scope in [node] + [x for x in ast.walk(node) if x is not node and isinstance(x, FUNC)]:
+            if not any(isinstance(x, ast.Return) and x.value is not None and not (isinstance(x.value, ast.Constant) and x.value.value is None) for x in _own_nodes(scope)):
+                drop_tail_returns(scope)
         if ast.dump(node) == before:
             break
     split_scoped_variables(node)
